@@ -1,5 +1,6 @@
 /- concdriver — line-protocol driver of the concurrency / partition components (C18, C09 pool part). -/
 import Driver.ConcGrow
+import Driver.ConcPool
 
 def words (line : String) : List String :=
   (line.trimAscii.toString.splitOn " ").filter (· ≠ "")
@@ -7,6 +8,9 @@ def words (line : String) : List String :=
 def handle (line : String) : String :=
   let ws := words line
   match Driver.Grow.cmd ws with
+  | some r => r
+  | none =>
+  match Driver.Pool.cmd ws with
   | some r => r
   | none => "err unknown-command"
 
